@@ -99,3 +99,6 @@ func VerifSetupMin() (*Keeper, sdk.Context) {
 	k, _, ctx := setup()
 	return k, ctx
 }
+
+// C18 self-composition from package opchild
+func VerifTwice18(ctx sdk.Context, fn func(c sdk.Context) (any, error)) { twice18(ctx, fn) }
